@@ -165,7 +165,7 @@ def mesenRow (r : SymRow) : List Char :=
         match toUsizeI r.value, toUsizeI addrStart with
         | some a, some a0 =>
           -- the file offset of the label in bytes: addresses count units of `unit` bits
-          if a0 ≤ a && 16 ≤ (a - a0) * unit / 8 + o / 8 then "P:".toList ++ hexLow ((a - a0) * unit / 8 + o / 8 - 16) ++ ':' :: nm ++ ['\n'] else []
+          if a0 ≤ a && 16 ≤ ((a - a0) * unit + o) / 8 then "P:".toList ++ hexLow (((a - a0) * unit + o) / 8 - 16) ++ ':' :: nm ++ ['\n'] else []
         | _, _ => []
       | none => "R:".toList ++ hexInt r.value ++ ':' :: nm ++ ['\n']
 
